@@ -61,7 +61,7 @@ def main():
         dst = os.path.join(VERIF, "seeded", sid)
         os.makedirs(dst, exist_ok=True)
         for f in ("patch.diff", "demo.py", "notes.md"):
-            if os.path.exists(os.path.join(src, f)):
+            if os.path.exists(os.path.join(src, f)) and os.path.realpath(src) != os.path.realpath(dst):
                 shutil.copy(os.path.join(src, f), os.path.join(dst, f))
         meta_path = os.path.join(dst, "meta.json")
         meta = {"id": sid, "property": prop, "source": "independent sub-agent given only the property text and a scratch worktree",
@@ -73,6 +73,9 @@ def main():
             old_det = old.get("detected_by", {})
             old_det.update(res["checks"])
             meta["detected_by"] = old_det
+            for k in ("needs_to_manifest", "history", "breaks", "first_verdict"):
+                if k in old and (k not in meta or meta[k] == "see notes.md"):
+                    meta[k] = old[k]
         json.dump(meta, open(meta_path, "w"), indent=1)
 
 
